@@ -214,12 +214,104 @@ func (rw *rewriter) stmts(list []ast.Stmt, entryKind string, pos token.Pos) []as
 		out = append(out, rw.yieldStmt(pos, entryKind))
 	}
 	for i, s := range list {
+		syncOp := yields && touchesSync(s)
 		if *mode == "dense" && !(i == 0 && entryKind != "") {
-			out = append(out, rw.yieldStmt(s.Pos(), "stmt"))
+			kind := "stmt"
+			if syncOp {
+				kind = "sync-pre"
+			}
+			out = append(out, rw.yieldStmt(s.Pos(), kind))
+		} else if syncOp {
+			out = append(out, rw.yieldStmt(s.Pos(), "sync-pre"))
 		}
 		out = append(out, rw.stmt(s)...)
+		if syncOp && !terminates(s) {
+			out = append(out, rw.yieldStmt(s.End(), "sync-post"))
+		}
 	}
 	return out
+}
+
+// syncMethods: method names of sync.Mutex/RWMutex/Once/Pool/Map/WaitGroup/Cond
+// and sync/atomic values.  A statement that calls one of them (or a function
+// of package atomic) is a synchronisation operation: defects that have no
+// data race in the detector's sense (torn multi-word publication through
+// atomics, check-then-act across two critical sections, a pooled object
+// released twice) live exactly between such operations, so the scheduler gets
+// a yield site right before and right after each and preempts there with
+// preference.
+var syncMethods = map[string]bool{
+	"Load": true, "Store": true, "Swap": true, "CompareAndSwap": true, "Add": true, "And": true, "Or": true,
+	"Lock": true, "Unlock": true, "RLock": true, "RUnlock": true, "TryLock": true, "TryRLock": true,
+	"Get": true, "Put": true, "Do": true,
+	"LoadOrStore": true, "LoadAndDelete": true, "Delete": true, "Range": true, "CompareAndDelete": true,
+	"Wait": true, "Done": true, "Signal": true, "Broadcast": true,
+}
+
+// touchesSync reports whether the statement itself (for compound statements:
+// its header, not its body) performs a synchronisation operation.
+func touchesSync(s ast.Stmt) bool {
+	found := false
+	visit := func(n ast.Node) {
+		if n == nil || isNilNode(n) {
+			return
+		}
+		ast.Inspect(n, func(n ast.Node) bool {
+			switch x := n.(type) {
+			case *ast.FuncLit:
+				return false
+			case *ast.CallExpr:
+				if sel, ok := x.Fun.(*ast.SelectorExpr); ok {
+					if id, ok := sel.X.(*ast.Ident); ok && id.Name == "atomic" {
+						found = true
+					}
+					if syncMethods[sel.Sel.Name] {
+						// x.Get(...)/x.Add(...) with arguments that are not sync calls are
+						// common names; accept the false positives (an extra yield site
+						// changes nothing but the schedule space)
+						found = true
+					}
+				}
+			}
+			return !found
+		})
+	}
+	switch s := s.(type) {
+	case *ast.ExprStmt, *ast.AssignStmt, *ast.ReturnStmt, *ast.IncDecStmt, *ast.DeclStmt, *ast.SendStmt:
+		visit(s)
+	case *ast.DeferStmt:
+		// the call runs at function exit, not here
+	case *ast.IfStmt:
+		visit(s.Init)
+		visit(s.Cond)
+	case *ast.SwitchStmt:
+		visit(s.Init)
+		visit(s.Tag)
+	case *ast.ForStmt:
+		visit(s.Init)
+	case *ast.RangeStmt:
+		visit(s.X)
+	case *ast.LabeledStmt:
+		return false
+	}
+	return found
+}
+
+// terminates reports whether control never reaches the statement after s.
+func terminates(s ast.Stmt) bool {
+	switch s := s.(type) {
+	case *ast.ReturnStmt:
+		return true
+	case *ast.BranchStmt:
+		return true
+	case *ast.ExprStmt:
+		if call, ok := s.X.(*ast.CallExpr); ok {
+			if id, ok := call.Fun.(*ast.Ident); ok && id.Name == "panic" {
+				return true
+			}
+		}
+	}
+	return false
 }
 
 // stmt instruments s and returns the statements replacing it.
